@@ -40,7 +40,7 @@ class C15(common.SpecCheck):
     templates = 4
     unit_timeout = 400
     QUICK = {"nseeds": 4, "specs": 32, "round": 32, "budget": 0}
-    THOROUGH = {"nseeds": 8, "specs": 0, "round": 96, "budget": 1200}
+    THOROUGH = {"nseeds": 8, "specs": 0, "round": 48, "budget": 1200}
     rule = ("history machine: each unit is one history of 2-12 operations over a pool of 2-4 specifications (the five "
             "accelerator specs in metrics mode, generated S/O/K/T/A specs in plain mode, generated class-M specs (synthetic architectures, perturbed accelerators) in metrics mode, and hand-written matmul mappings over the same rank names K/M/N whose partitioning gives those names different roots and levels), run in a pristine child of a "
             "template interpreter per hash seed. Operations: parse, compile on SHARED parsed objects, compile on fresh "
